@@ -36,6 +36,8 @@ STUB = ["event loop (SimLoop)", "transport (SimTransport)"]
 ASSUMPTIONS = ["the older version's run is the reference for the newer one"]
 REQUIRED_PROBES = ["pair_1x", "pair_2x", "pair_cross", "step_with_write", "step_with_error", "send_parked",
                    "release_compared", "write_fault_compared"]
+SET_MAX = {"1.4": 39, "1.5": 46, "2.0": 56, "2.1": 56, "2.2": 56}   # highest V_* number of each protocol
+PRES_MAX = {"1.4": 25, "1.5": 35, "2.0": 39, "2.1": 39, "2.2": 39}  # highest S_* number of each protocol
 PAIRS = [(a, b) for i, a in enumerate(G.PROTOS) for b in G.PROTOS[i + 1:]]
 
 
@@ -73,7 +75,9 @@ def gen(seed: int, i: int, tier: str) -> dict:
     both2x = old in G.PROTOS_2X
     nodes = rng.sample([1, 2, 3, 9, 254], rng.randint(1, 3))
     children = [0, 1, 7]
-    types = [0, 2, 3, 24]
+    # value and sensor types: a few common ones plus a per-history pick from the whole range the OLDER protocol knows
+    types = [0, 2, 3, 24] + rng.sample(range(0, SET_MAX[old] + 1), 2)
+    ctypes = [0, 3, 6] + rng.sample(range(0, PRES_MAX[old] + 1), 2)
     ops = []
     known = set()
     kids = {}
@@ -99,7 +103,7 @@ def gen(seed: int, i: int, tier: str) -> dict:
             c = rng.choice(children)
             if cross and n not in known:
                 continue
-            ops.append(["line", f"{n};{c};0;0;{rng.choice([0, 3, 6])};{G.payload(rng)}\n"])
+            ops.append(["line", f"{n};{c};0;0;{rng.choice(ctypes)};{G.payload(rng)}\n"])
             if n in known:
                 kids[n].add(c)
         elif r < 0.5:
